@@ -22,6 +22,7 @@ type seed struct {
 }
 
 var seeds = []seed{
+	{"frozenView adds up the announced run elements in int", "T2", "serialization_littleendian.go", "\tvar nArrayEl, nRunEl uint64\n", "\tvar nArrayEl uint64\n\tvar nRunEl uint\n", "frozenView|total nRunEl"},
 	{"64-bit BSI.Add reads the operand also when it is the receiver", "F10.bsi", "roaring64/bsi64.go", "\tif other == b {\n\t\t// doubling: the carries rewrite the planes that are still to be read\n\t\tother = b.Clone()\n\t}\n\n\tb.eBM.Or(&other.eBM)", "\tb.eBM.Or(&other.eBM)", "(*roaring64.BSI).Add|self-application"},
 	{"PreviousValue steps its chunk index in the for clause and in the body", "LP1", "roaring.go", "\tfor containerIndex != -1 && prevValue == -1 {\n", "\tfor ; containerIndex >= 0 && prevValue == -1; containerIndex-- {\n", "PreviousValue|for containerIndex"},
 	{"AndAny continues to the next key before emptying its filter list", "LP2", "fastaggregation.go", "\t\tif !result.isEmpty() {\n\t\t\tx1.highlowcontainer.replaceKeyAndContainerAtIndex(intersections, baseKey, result, false)\n\t\t\tintersections++\n\t\t}\n", "\t\tif result.isEmpty() {\n\t\t\tbasePos = x1.highlowcontainer.advanceUntil(minNextKey, basePos)\n\t\t\tcontinue\n\t\t}\n\t\tx1.highlowcontainer.replaceKeyAndContainerAtIndex(intersections, baseKey, result, false)\n\t\tintersections++\n", "AndAny|scratch list"},
